@@ -4,8 +4,9 @@ import numpy as np
 from ..common import mellon, bits, unbits, fbit, exc_class, rel_err
 
 RULE = ("cases = (validator, Python value) over the value grammar {None, bool, int (incl. beyond int64 / beyond the double "
-        "range), float (NaN, +-inf, +-0, subnormal, huge), numeric / non-numeric str, numpy / jax 0-d, 1-element, n-element "
-        "arrays, scipy sparse, nested lists / tuples, enum members, arbitrary objects} - exhaustive over the grammar menu for "
+        "range), float (NaN, +-inf, +-0, subnormal, huge), numeric / non-numeric str, NumPy integer scalars (int8..int64, uint8, "
+        "uint64 incl. above 2^63-1), 0-d integer arrays of NumPy / JAX, numpy / jax 0-d, 1-element, n-element "
+        "arrays (float, int, bool dtypes), scipy sparse, nested lists / tuples, enum members, arbitrary objects} - exhaustive over the grammar menu for "
         "every validator and every constructor argument; nn_distances patterns over {valid, NaN, +inf, -inf, 0, -0, negative} "
         "(all assignments for n <= 3, sampled for n <= 20); ensure_2d shapes; predictor calls over query containers x "
         "feature counts x normalize flags; Cholesky refusal on definite / indefinite kernels; fits of the 4 estimators on "
@@ -21,7 +22,10 @@ PARTIAL = [
 ASSUMPTIONS = [
     "CPython float(str) is taken as data: a str value is (text, result of float(text))",
     "numpy >= 2.5 / jax 0.11 coercion rules: float() of an array that is not 0-d raises TypeError; jnp.isnan parses a Python "
-    "int as int64 (x64 mode, switched on by `import mellon`)",
+    "int as int64 (x64 mode, switched on by `import mellon`); numpy.integer instances are not Iterable, 0-d arrays are; "
+    "float() of an integer dtype rounds to nearest even like float() of the Python int",
+    "NumPy scalars of a non-integer, non-float64 dtype (numpy.bool_, numpy.float32) are outside the value syntax of the model "
+    "(numpy.float64 is a Python float; 0-d arrays of bool / float dtype are in it)",
     "ASCII option strings (str.lower is modelled for ASCII only)",
     "XLA-CPU flushes subnormal doubles to zero in comparisons (a subnormal distance counts as `<= 0` in the implementation): "
     "nn_distances are generated without subnormal entries",
@@ -34,10 +38,14 @@ SIG_GPTYPE = "C20:gp_type-nonstring-attributeerror"
 SIG_DIM1D = "C20:dimensionality-1d-indexerror"
 SIG_TIME_EMPTY = "C20:time-empty-zerodivision"
 SIG_LR_INF = "C20:init_learn_rate-inf-nan"
+SIG_INTSCALAR = "C20:integer-scalar-not-kept"
 
 # ------------------------------------------------------------------ value grammar
 # spec := ["N"] | ["B", bool] | ["I", "decimal"] | ["F", bits] | ["NPF", bits] | ["S", text]
-#       | ["A", "np"|"jax", [shape], [bits...], dtype] | ["SP", r, c, [bits...]] | ["L", [spec...]] | ["T", [spec...]]
+#       | ["NI", "decimal", dtype]                 NumPy integer scalar (numpy.int64(5), numpy.uint8(3), ...)
+#       | ["A0I", "np"|"jax", "decimal", dtype]    0-d array of an integer dtype (exact value; driver token NI)
+#       | ["A", "np"|"jax", [shape], [bits...], dtype]   any other array (never 0-d with an integer dtype: use A0I)
+#       | ["SP", r, c, [bits...]] | ["L", [spec...]] | ["T", [spec...]]
 #       | ["E", value] | ["O"]
 
 
@@ -49,9 +57,32 @@ def F(x):
     return ["F", fb(x)]
 
 
+def is_int_dtype(dtype):
+    return np.dtype(dtype).kind in "iu"
+
+
 def A(lib, a, dtype="float64"):
     a = np.asarray(a)
+    if a.ndim == 0 and is_int_dtype(dtype):
+        return ["A0I", lib, str(int(a)), dtype]
     return ["A", lib, list(a.shape), [fb(v) for v in a.astype(np.float64).ravel()], dtype]
+
+
+def NI(i, dtype="int64"):
+    return ["NI", str(int(i)), dtype]
+
+
+def A0I(lib, i, dtype="int64"):
+    return ["A0I", lib, str(int(i)), dtype]
+
+
+def int_of_spec(spec):
+    """The exact integer of an integer-typed scalar spec (Python int, NumPy integer scalar, 0-d integer array), else None."""
+    if spec[0] in ("I", "NI"):
+        return int(spec[1])
+    if spec[0] == "A0I":
+        return int(spec[2])
+    return None
 
 
 def build(spec):
@@ -69,7 +100,19 @@ def build(spec):
         return np.uint64(spec[1]).view(np.float64)
     if k == "S":
         return spec[1]
+    if k == "NI":
+        return np.dtype(spec[2]).type(int(spec[1]))
+    if k == "A0I":
+        a = np.asarray(int(spec[2]), dtype=spec[3])
+        assert a.ndim == 0 and a.dtype == np.dtype(spec[3]) and int(a) == int(spec[2])
+        if spec[1] == "jax":
+            import jax.numpy as jnp
+            j = jnp.asarray(a)
+            assert j.ndim == 0 and j.dtype == a.dtype, (j.dtype, a.dtype)      # x64 mode (switched on by `import mellon`)
+            return j
+        return a
     if k == "A":
+        assert not (len(spec[2]) == 0 and is_int_dtype(spec[4])), "0-d integer arrays are A0I specs"
         a = np.array(spec[3], dtype=np.uint64).view(np.float64).reshape(spec[2]).astype(spec[4])
         if spec[1] == "jax":
             import jax.numpy as jnp
@@ -112,8 +155,13 @@ def tokens(spec):
         except ValueError:
             num = "N"
         return f"S {stoks(spec[1])} {num}"
+    if k == "NI":
+        return f"NI s {int(spec[1])}"
+    if k == "A0I":
+        return f"NI {spec[1]} {int(spec[2])}"
     if k == "A":
         sh = spec[2]
+        assert not (len(sh) == 0 and is_int_dtype(spec[4])), "0-d integer arrays are A0I specs"
         return ("A %s %d %s %s" % (spec[1], len(sh), " ".join(map(str, sh)), " ".join(map(str, spec[3])))).strip()
     if k == "SP":
         return ("SP %d %d %s" % (spec[1], spec[2], " ".join(map(str, spec[3])))).strip()
@@ -225,6 +273,14 @@ def value_menu():
         ["S", "abc"], ["S", ""], ["S", "adam"], ["S", "advi"], ["S", "L-BFGS-B"], ["S", "ADAM"], ["S", "fractal"],
         ["S", "embedding"], ["S", "full"], ["S", "Full Nystroem"], ["S", "sparse"], ["S", "fixed"], ["S", "nys"],
         ["S", "bogus"], ["S", "_"],
+        # NumPy / JAX integer scalars: NumPy scalar objects and 0-d integer arrays of several dtypes
+        NI(5), NI(0), NI(-3, "int32"), NI(3, "uint8"), NI(2, "int16"), NI(7, "uint64"), NI(2 ** 53 + 1), NI(2 ** 63 - 1),
+        NI(-2 ** 63), NI(2 ** 63, "uint64"), NI(2 ** 63 + 5, "uint64"), NI(2 ** 64 - 1, "uint64"),
+        A0I("np", 5), A0I("np", 3, "int32"), A0I("np", -2, "int8"), A0I("np", 2 ** 63 + 5, "uint64"),
+        A0I("jax", 5), A0I("jax", 4, "int32"), A0I("jax", 3, "uint8"), A0I("jax", 0), A0I("jax", 2 ** 53 + 1),
+        A0I("jax", 2 ** 63 + 5, "uint64"), A0I("jax", -1),
+        A("np", True, "bool"), A("jax", True, "bool"), A("np", [5], "int64"), A("jax", [5], "int64"), A("np", 5.0, "float32"),
+        ["L", [NI(1), NI(2, "int32")]], ["L", [A0I("jax", 1), ["I", "2"]]],
         A("np", 1.5), A("np", nan), A("np", -2.0), A("np", 3, "int64"), A("np", [1.5]), A("np", [[1.5]]), A("np", [nan]),
         A("np", [1.5, 2.5]), A("np", [-1.0, 2.0]), A("np", [[1.0, 2.0], [3.0, 4.0]]), A("np", []), A("np", [0.0]),
         A("np", [1, 2, 3], "int64"), A("np", np.zeros((2, 1, 2))),
@@ -277,9 +333,9 @@ def spec_float(spec):
         return float(spec[1])
     if k in ("F", "NPF"):
         return float(np.uint64(spec[1]).view(np.float64))
-    if k == "I":
+    if k in ("I", "NI", "A0I"):
         try:
-            return float(int(spec[1]))
+            return float(int_of_spec(spec))
         except OverflowError:
             return None
     return None
@@ -338,6 +394,25 @@ def expected_refusal(name, spec):
         if v != v or (base == "positive_float" and not (v > 0 and (inf_ok or v != float("inf")))):
             return "ValueError"
         return "ok"
+    # NumPy / JAX integer scalars: an integer for validate_float_or_int (int64 range as for a Python int), a number
+    # for the float()-based validators, no `int` for validate_positive_int (generic branch above), and
+    # a numpy.integer instance is no Iterable while a 0-d array is
+    if k in ("NI", "A0I"):
+        i = int_of_spec(spec)
+        if base == "float_or_int":
+            return "ok" if -2 ** 63 <= i < 2 ** 63 else "ValueError"
+        if base == "float":
+            return "ok"
+        if base == "positive_float":
+            return "ok" if i > 0 else "ValueError"
+        if base == "1d":
+            return "ok"
+        if base in ("array", "foin"):
+            if k == "NI":
+                return "TypeError"
+            if base == "foin":
+                return "ValueError" if ("+" in name and i < 0) else "ok"
+            return "ValueError" if name == "array:nd2" or name == "array?:nd12" else "ok"
     # Python ints: outside int64 (isnan-based validators) / beyond the double range (float()-based) -> ValueError
     if k == "I":
         i = int(spec[1])
@@ -376,6 +451,17 @@ def post_ok(name, spec, r):
     elif base in ("float_or_int", "float"):
         if not isinstance(r, (float, int)) or r != r:
             return f"accepted value {r!r} is NaN or not a number"
+        i = int_of_spec(spec)
+        if base == "float_or_int" and i is not None and not (type(r) is int and r == i):
+            # integer in -> the same Python int out, never a float (an integer rank is a count, not a fraction)
+            return f"integer input {i} came back as {type(r).__name__} {r!r}, not as the Python int {i}"
+        if base == "float_or_int" and spec[0] in ("F", "NPF") and not (isinstance(r, float) and cbits(r) == cbits(build(spec))):
+            return f"float input came back as {type(r).__name__} {r!r}"
+        if base == "float" and i is not None:
+            # validate_float: a Python int is returned as is, every other number through float()
+            same = (type(r) is int and r == i) if spec[0] == "I" else (type(r) is float and r == float(i))
+            if not same:
+                return f"validate_float: integer input {i} came back as {type(r).__name__} {r!r}"
     elif base == "positive_int":
         if not isinstance(r, int) or r < 0:
             return f"accepted value {r!r} is not a non-negative int"
@@ -433,7 +519,8 @@ def case_scalar(ctx, res, p):
     if cls == "ok":
         msg = post_ok(name, spec, r)
         if msg:
-            res.oracle_fail(f"{name}: {msg}", p, detail={"value": spec}, signature=f"C20:postcondition:{name}")
+            sig = SIG_INTSCALAR if (msg.startswith("integer input") and spec[0] in ("NI", "A0I")) else f"C20:postcondition:{name}"
+            res.oracle_fail(f"{name}: {msg}", p, detail={"value": spec}, signature=sig)
     # --- correspondence
     if ctx["driver"] is not None:
         mcls, mv = model_outcome(ctx, f"{pre} {tokens(spec)}")
@@ -757,6 +844,10 @@ def case_ctor(ctx, res, p):
         for k in ("mu", "rank"):
             if g[k] is not None and (not isinstance(g[k], (int, float)) or g[k] != g[k]):
                 bad.append(f"{k}={g[k]!r} is NaN or not a number")
+        ri = int_of_spec(args["rank"])
+        if ri is not None and not (type(g["rank"]) is int and g["rank"] == ri):
+            bad.append(f"rank={g['rank']!r} ({type(g['rank']).__name__}) is not the integer {ri} that was given "
+                       f"({args['rank'][0]}): an integer rank is a number of directions, not a fraction")
         for k in ("predictor_with_uncertainty", "jit"):
             if not isinstance(g[k], bool):
                 bad.append(f"flag {k}={g[k]!r} is not a bool")
@@ -776,8 +867,10 @@ def case_ctor(ctx, res, p):
             if not np.all(np.isfinite(a) & (a > 0)):
                 bad.append("stored nn_distances are not all finite and positive")
         if bad:
-            res.oracle_fail("constructor accepted an invalid argument: " + "; ".join(bad), p,
-                            signature="C20:ctor-postcondition:" + bad[0].split("=")[0].split(" ")[-1])
+            sig = "C20:ctor-postcondition:" + bad[0].split("=")[0].split(" ")[-1]
+            if bad[0].startswith("rank=") and "is not the integer" in bad[0] and args["rank"][0] in ("NI", "A0I"):
+                sig = SIG_INTSCALAR
+            res.oracle_fail("constructor accepted an invalid argument: " + "; ".join(bad), p, signature=sig)
     # the refusals the property spells out, one dirty argument at a time
     if len(dirty) == 1 and not cls.startswith("Internal"):
         k = dirty[0]
@@ -998,8 +1091,9 @@ def run_case(ctx, res, p):
 
 
 def witnesses():
-    """Regression cases: the witnesses of the five defects repaired in /repo (ints outside int64 / the double range,
-    non-string gp_type, 1-D input to DimensionalityEstimator, empty time-sensitive data, infinite learning rate).
+    """Regression cases: the witnesses of the defects repaired in /repo (ints outside int64 / the double range,
+    non-string gp_type, 1-D input to DimensionalityEstimator, empty time-sensitive data, infinite learning rate,
+    NumPy / JAX integer scalars turned into floats by validate_float_or_int).
     They must now be refused cleanly (resp. accepted for the 1-D input); on a tree without the repairs they are
     reported as violations."""
     return [
@@ -1024,6 +1118,12 @@ def witnesses():
         {"op": "ctor", "args": {"landmarks": ["L", [["L", [["I", str(10 ** 400)], ["I", "1"]]]]]}},
         {"op": "scalar", "validator": "positive_float:inf", "value": F(float("inf"))},
         {"op": "fit", "estimator": "dimensionality", "data": "list1d", "n": 20, "seed": 1},
+        # integer scalars of NumPy / JAX stay integers (fix 4604925: they became floats, rank=np.int64(5) -> 5.0)
+        {"op": "scalar", "validator": "float_or_int?", "value": NI(5)},
+        {"op": "scalar", "validator": "float_or_int", "value": A0I("jax", 3, "int32")},
+        {"op": "scalar", "validator": "float_or_int", "value": NI(2 ** 63 + 5, "uint64")},
+        {"op": "ctor", "args": {"rank": NI(5)}},
+        {"op": "ctor", "args": {"rank": A0I("np", 4, "int32")}},
     ]
 
 
@@ -1136,14 +1236,17 @@ CLAIM = {
     "text": "Lean theorems over exact data (extended floats XF, a syntax of Python values with CPython/numpy/jax coercion rules): "
             "validate_nn_distances sanitises (accepted => all outputs finite positive, valid entries unchanged, invalid entries = "
             "smallest valid) and refuses all-invalid input; every scalar/flag/string/array validator: accepted => postcondition, "
-            "with its refusal table; BaseEstimator/DensityEstimator constructor validation (first refusal wins, unknown option "
+            "with its refusal table; validate_float_or_int keeps integers (a Python int and a NumPy / JAX integer scalar - NumPy "
+            "scalar object or 0-d integer array of any integer dtype - come back as the Python int of the same value, a float as "
+            "that float; integers outside int64, i.e. a uint64 above 2^63-1, are refused; float_or_int_keeps_integers); BaseEstimator/DensityEstimator constructor validation (first refusal wins, unknown option "
             "strings and wrongly typed flags refused); ensure_2d shapes; feature-count mismatch refused at call time; Cholesky "
             "refusal (pivot <= 0 => ValueError, never a NaN factor); mle well-defined for positive distances. Tied to /repo by "
             "running the real validators / constructor / predictors / factorisations on the value grammar and comparing outcome "
             "class and value exactly with the model driver, plus independent numpy oracles and fits of the 4 estimators on dirty data.",
-    "note": "End-to-end finiteness of fitted values/predictions is a float-range statement: tests only. The five defects found earlier "
+    "note": "End-to-end finiteness of fitted values/predictions is a float-range statement: tests only. The defects found earlier "
             "(int overflow in validators, non-string gp_type, 1-D input to DimensionalityEstimator, empty time-sensitive data, "
-            "init_learn_rate=inf) are repaired in /repo; model and theorems state the repaired behaviour at full strength "
+            "init_learn_rate=inf, NumPy / JAX integer scalars coerced to float by validate_float_or_int - fix 4604925) are "
+            "repaired in /repo; model and theorems state the repaired behaviour at full strength "
             "(validators_no_internal, gp_from_string_no_internal, positive_float_finite) and the old witnesses are regression cases.",
     "technique": "Lean 4 proof (case analysis over value syntax, list induction over extended floats) + exhaustive differential "
                  "correspondence over the value grammar + independent oracles + dirty-data fits",
